@@ -572,6 +572,8 @@ def dropped_results(ctx, g, P):
         if a0["k"] in ("copy", "move"):
             ty = g.inst(n).body["locals"][a0["p"]["l"]]["ty"]
             if "std::io::Error" in ty:
+                if cpath(t).endswith(("is_ok", "is_err")) and _referent_used_elsewhere(g.inst(n).body, a0["p"]["l"]):
+                    continue        # `&self` test of a result that is consumed afterwards (returned, matched, passed on)
                 out.append((n, "converted with %s (its error is dropped)" % cpath(t).split("::")[-1]))
     # results never inspected: dest local only dropped
     for n in P.calls(None):
@@ -599,6 +601,30 @@ def dropped_results(ctx, g, P):
         if not used:
             out.append((n, "never inspected (`let _ = ...` / unused)"))
     return out
+
+
+def _referent_used_elsewhere(body, ref_local):
+    """`ref_local = &r` feeds is_ok/is_err; is r itself moved / matched / passed on anywhere in the body?"""
+    refs = set()
+    for blk in body["blocks"]:
+        for s in blk["stmts"]:
+            if s["k"] == "assign" and not s["p"]["proj"] and s["p"]["l"] == ref_local and s["rv"]["k"] == "ref" and not s["rv"]["p"]["proj"]:
+                refs.add(s["rv"]["p"]["l"])
+    if len(refs) != 1:
+        return False
+    r = next(iter(refs))
+    for blk in body["blocks"]:
+        if blk["cleanup"]:
+            continue
+        for s in blk["stmts"]:
+            if s["k"] == "assign" and s["rv"]["k"] in ("use", "agg", "discr") and _mentions(s["rv"], r):
+                return True
+        tt = blk["term"]
+        if tt["k"] == "call" and any(_op_mentions(a, r) for a in tt["args"]):
+            return True
+        if tt["k"] == "switch" and _op_mentions(tt["discr"], r):
+            return True
+    return False
 
 
 def _op_mentions(o, l):
